@@ -5,6 +5,7 @@ import (
 	"io"
 	"math/rand"
 	"net"
+	"sync"
 	"time"
 
 	. "github.com/M2MGateway/go-smpp/pdu"
@@ -16,6 +17,7 @@ type Conn struct {
 	cancel       context.CancelFunc
 	receiveQueue chan interface{}
 	pending      map[int32]func(interface{})
+	mu           sync.Mutex // guards pending
 	NextSequence func() int32
 	ReadTimeout  time.Duration
 	WriteTimeout time.Duration
@@ -71,7 +73,7 @@ func (c *Conn) Watch() {
 				Tags:   Tags{0xFFFF: []byte(err.Error())},
 			})
 			continue
-		} else if callback, ok := c.pending[ReadSequence(packet)]; ok {
+		} else if callback, ok := c.lookup(ReadSequence(packet)); ok {
 			callback(packet)
 		} else {
 			c.receiveQueue <- packet
@@ -86,8 +88,8 @@ func (c *Conn) Submit(ctx context.Context, packet Responsable) (resp interface{}
 		return
 	}
 	returns := make(chan interface{}, 1)
-	c.pending[sequence] = func(resp interface{}) { returns <- resp }
-	defer delete(c.pending, sequence)
+	c.register(sequence, func(resp interface{}) { returns <- resp })
+	defer c.register(sequence, nil)
 	select {
 	case <-c.ctx.Done():
 		err = ErrConnectionClosed
@@ -96,6 +98,23 @@ func (c *Conn) Submit(ctx context.Context, packet Responsable) (resp interface{}
 	case resp = <-returns:
 	}
 	return
+}
+
+func (c *Conn) lookup(sequence int32) (callback func(interface{}), ok bool) {
+	c.mu.Lock()
+	defer c.mu.Unlock()
+	callback, ok = c.pending[sequence]
+	return
+}
+
+func (c *Conn) register(sequence int32, callback func(interface{})) {
+	c.mu.Lock()
+	defer c.mu.Unlock()
+	if callback == nil {
+		delete(c.pending, sequence)
+	} else {
+		c.pending[sequence] = callback
+	}
 }
 
 func (c *Conn) Send(packet interface{}) (err error) {
